@@ -8,7 +8,7 @@ from .. import gen, impl, oracle, ser, stream
 
 ID = "C10"
 LEVEL = "proof"
-PROPS_MODULE = "SymmModel.Props.C10All5"
+PROPS_MODULE = "SymmModel.Props.C10All6"
 THEOREMS = [
     "SymmModel.C10.oddposDag_involutive",
     "SymmModel.C10.Index.conj_conj",
@@ -83,10 +83,18 @@ THEOREMS = [
     "SymmModel.C10.network_norm_bracketings_any_mode",
     "SymmModel.C10.network_norm_bracketings_any_mode_oneKet",
     "SymmModel.C10.network_norm_bracketings_auto",
-    "SymmModel.C10.network_norm_halves_any_mode"
+    "SymmModel.C10.network_norm_halves_any_mode",
+    "SymmModel.C10.crossAx_def",
+    "SymmModel.C10.dropUnused_rot",
+    "SymmModel.C10.swap_eqv",
+    "SymmModel.C10.mixed_full",
+    "SymmModel.C10.network_norm_mixed",
+    "SymmModel.C10.network_norm_mixed_seq",
+    "SymmModel.C10.network_norm_mixed_seq_oneKet",
+    "SymmModel.C10.crossAx_eq_rotAx"
 ]
-LEAN_FILES = ["SymmModel.Props.C10", "SymmModel.Proofs.LazyLemmas", "SymmModel.Props.C10b", "SymmModel.Proofs.NormLemmas", "SymmModel.Props.C10c", "SymmModel.Props.C10All2", "SymmModel.Proofs.NormNet1", "SymmModel.Proofs.NormNet2", "SymmModel.Proofs.NormNet3", "SymmModel.Proofs.NormNet4", "SymmModel.Proofs.NormNet5", "SymmModel.Proofs.NormNet6", "SymmModel.Proofs.NormNetLabels", "SymmModel.Props.C10d", "SymmModel.Props.C10All3", "SymmModel.Proofs.NormNet7", "SymmModel.Proofs.NormNet8", "SymmModel.Proofs.NormNet9", "SymmModel.Proofs.NormNet10", "SymmModel.Proofs.NormNet11", "SymmModel.Proofs.NormNet12", "SymmModel.Props.C10e", "SymmModel.Props.C10All4", "SymmModel.Proofs.NormNet13", "SymmModel.Proofs.NormNet14", "SymmModel.Proofs.NormNet15", "SymmModel.Proofs.NormNet16", "SymmModel.Props.C10f", "SymmModel.Props.C10All5", "SymmModel.Proofs.NormNet17", "SymmModel.Proofs.NormNet18", "SymmModel.Proofs.NormNet19", "SymmModel.Proofs.NormNet20"]
-PLANNED = ["mixed operand orders of the halves", "netLabelsB as a theorem for arbitrary sorted ket lists (decided by evaluation", "one label per tensor proved)", "bracketings that first contract a ket with a bra tensor", "three-tensor chains"]
+LEAN_FILES = ["SymmModel.Props.C10", "SymmModel.Proofs.LazyLemmas", "SymmModel.Props.C10b", "SymmModel.Proofs.NormLemmas", "SymmModel.Props.C10c", "SymmModel.Props.C10All2", "SymmModel.Proofs.NormNet1", "SymmModel.Proofs.NormNet2", "SymmModel.Proofs.NormNet3", "SymmModel.Proofs.NormNet4", "SymmModel.Proofs.NormNet5", "SymmModel.Proofs.NormNet6", "SymmModel.Proofs.NormNetLabels", "SymmModel.Props.C10d", "SymmModel.Props.C10All3", "SymmModel.Proofs.NormNet7", "SymmModel.Proofs.NormNet8", "SymmModel.Proofs.NormNet9", "SymmModel.Proofs.NormNet10", "SymmModel.Proofs.NormNet11", "SymmModel.Proofs.NormNet12", "SymmModel.Props.C10e", "SymmModel.Props.C10All4", "SymmModel.Proofs.NormNet13", "SymmModel.Proofs.NormNet14", "SymmModel.Proofs.NormNet15", "SymmModel.Proofs.NormNet16", "SymmModel.Props.C10f", "SymmModel.Props.C10All5", "SymmModel.Proofs.NormNet17", "SymmModel.Proofs.NormNet18", "SymmModel.Proofs.NormNet19", "SymmModel.Proofs.NormNet20", "SymmModel.Props.C10g", "SymmModel.Props.C10All6", "SymmModel.Proofs.NormNet21", "SymmModel.Proofs.NormNet22", "SymmModel.Proofs.NormNet23", "SymmModel.Proofs.NormNet24"]
+PLANNED = ["netLabelsB as a theorem for more than two labels per tensor (<= 2 proved symbolically in C04g", "decided by evaluation otherwise)", "bracketings that first contract a ket with a bra tensor", "three-tensor chains", "mixed operand orders in fused/auto mode"]
 RULE = ("random fermionic arrays (all symmetries, every dualness pattern, even/odd charge with labels, pending signs, "
         "real/complex): <x|x> through conj (all-ket or phase_dual) in both operand orders equals the exact integer "
         "sum |x|^2; conj/dagger involutions; dagger == transpose(conj) for both settings of phase_dual; 2-3 tensor "
